@@ -203,6 +203,12 @@ def write_side(plan, sim):
         rg = refdec.decode_stream(out_g, True, strict=False)
         rr = refdec.decode_stream(out_r, True, strict=False)
         same_data = rg.ok and rr.ok and set(rg.items) == set(rr.items)     # an rdflib Dataset is a set
+        container = entry not in ("frames_gen", "flat_file")
+        if container and same_data and rg.items != rr.items and sorted(rg.items, key=repr) == sorted(rr.items, key=repr):
+            # the rdflib writer went through its (unordered) container in another order than the harness did when it
+            # built the "corresponding" generic sequence: the two inputs do not correspond, nothing to compare
+            sim.count("container_written_in_another_order")
+            return [], None
         v.append({"clause": "C15.serializers_differ",
                   "sig": {"physical": cfg_g["physical"], "input": "generator" if entry in ("frames_gen", "flat_file")
                           else "container", "same_statements": bool(same_data)},
@@ -244,6 +250,12 @@ def grouped_write_side(plan, sim, cfg_g, cfg_r, stmts):
                  "msg": f"grouped write: {type(e).__name__}: {e}"}], None
     v = []
     if outs["generic"] != outs["rdflib"]:
+        from simkit import refdec as _rd
+        rg, rr = (_rd.decode_stream(outs[k], True, strict=False) for k in ("generic", "rdflib"))
+        if rg.ok and rr.ok and rg.items != rr.items and sorted(rg.items, key=repr) == sorted(rr.items, key=repr) \
+                and [len(f) for f in rg.frames_items] == [len(f) for f in rr.frames_items]:
+            sim.count("container_written_in_another_order")     # see write_side: the inputs did not correspond
+            return [], None
         fg = len(wire_frames(outs["generic"]))
         fr = len(wire_frames(outs["rdflib"]))
         v.append({"clause": "C15.serializers_differ", "sig": {"physical": cfg_g["physical"], "input": "grouped",
